@@ -321,3 +321,71 @@ Example w6_container_level :
   exists d, read_psd raw_codec w6 = Ok d /\ resave_guard d = true /\
     map (fun r => map tb_data (r_blocks r)) (doc_records d) = [[[0;0;0;1; 0;0;0;7]]].
 Proof. eexists. split; [vm_compute; reflexivity|]. split; vm_compute; reflexivity. Qed.
+
+(* ------------------------------------------------------------------ the PSDImage level: PSDImage.open(b) then save() without edits
+   (Psd/ResaveApi.v; the tree model is C08's Tree/Build.v).  save() = _update_record (returns at once while nothing was
+   edited) + PSD.write of the structure read: [api_save] IS [write_psd], so whenever the constructor succeeds everything
+   above applies unchanged.  What is proved here: when the constructor succeeds and when not, that opening (and even a
+   forced rebuild of the record list) keeps every record in place, and that the saved file opens again with the same tree. *)
+From PsdV Require Import Psd.ResaveApi Psd.ResaveApiProofs.
+From PsdV Require Tree.Build.
+
+(* the constructor's outcome is decided by the bracket structure of the divider blocks: well nested -> a tree whose
+   flattening is the record list read; an unmatched folder record -> AssertionError (4); an unclosed group ->
+   AttributeError (99, raised by the clipping pass).  In the last two cases the PSDImage reader does not accept the
+   file: the property says nothing. *)
+Theorem api_open_outcomes :
+  forall d rs, api_records d = Ok rs ->
+    (Tree.Build.balanced rs /\ exists f, api_open d = ApiOpened f /\ Tree.Build.build rs = Ok f /\ Tree.Build.flatten f = rs) \/
+    (Tree.Build.scan 0 rs = None /\ api_open d = ApiRaised 4) \/
+    (exists k, Tree.Build.scan 0 rs = Some (S k) /\ api_open d = ApiRaised Tree.Build.ATTRIBUTE_ERROR).
+Proof. exact api_open_cases. Qed.
+Print Assumptions api_open_outcomes.
+
+(* _build_record_tree (Tree.Build.flatten) on the opened tree returns the (record, channels) pairs that were read, each
+   once, in their order: a rebuilt record list is the list read *)
+Theorem api_rebuild_is_identity :
+  forall d f, api_open d = ApiOpened f ->
+    pick (doc_records d) (map Tree.Build.rid (Tree.Build.flatten f)) = map Some (doc_records d).
+Proof. exact api_rebuild_identity. Qed.
+Print Assumptions api_rebuild_is_identity.
+
+(* the property at the PSDImage level: accepted by PSDImage.open, below 1 GiB, outside the three classes: save()
+   succeeds, the saved bytes are accepted by PSDImage.open again with the SAME layer tree, the structure is equal,
+   and a second save() reproduces the bytes *)
+Theorem api_resave :
+  forall enc_s dec_s, codec_ok enc_s dec_s ->
+  forall pad b d f, bytes b -> 0 < pad -> 4 * len b + pad + 20 < 2 ^ 32 ->
+    read_psd dec_s b = Ok d -> api_open d = ApiOpened f -> resave_guard d = true ->
+    exists s n, api_save enc_s pad d = Ok (s, n) /\
+      exists d', read_psd dec_s s = Ok d' /\ eqv d d' /\ api_open d' = ApiOpened f /\ api_save enc_s pad d' = Ok (s, n).
+Proof.
+  intros enc_s dec_s Hc pad b d f Hb Hp Hs Hr Ho Hg.
+  destruct (resave enc_s dec_s Hc pad b d Hb Hp Hs Hr Hg) as (s & n & Hw & d' & H1 & H2 & H3).
+  exists s, n. split; [exact Hw|]. exists d'. split; [exact H1|]. split; [exact H2|]. split; [|exact H3].
+  unfold eqv in H2. subst d'. now rewrite api_open_after_write.
+Qed.
+Print Assumptions api_resave.
+
+(* two nested groups around one layer / a folder record without its bounding record / a bounding record never closed *)
+Definition w_api_rec (name_blocks : list Z) : list Z :=
+  [0;0;0;0; 0;0;0;0; 0;0;0;1; 0;0;0;1;  0;0;  56;66;73;77; 110;111;114;109; 255; 0; 8; 0] ++
+  be_bytes 4 (12 + len name_blocks) ++ [0;0;0;0;  0;0;0;0;  0;0;0;0] ++ name_blocks.
+Definition w_lsct (kind : Z) : list Z := [56;66;73;77; 108;115;99;116; 0;0;0;4; 0;0;0;kind].
+Definition w_api (recs : list (list Z)) : list Z :=
+  let body := be_bytes 2 (len recs) ++ concat recs in
+  let body := body ++ zeros (Z.to_nat (pad_count (len body) 4)) in
+  hdr1 ++ [0;0;0;0; 0;0;0;0] ++ be_bytes 4 (4 + len body + 4) ++ be_bytes 4 (len body) ++ body ++ [0;0;0;0] ++ [0;0; 0].
+Definition wa1 : list Z := w_api [w_api_rec (w_lsct 3); w_api_rec (w_lsct 3); w_api_rec []; w_api_rec (w_lsct 1); w_api_rec (w_lsct 2)].
+Definition wa2 : list Z := w_api [w_api_rec []; w_api_rec (w_lsct 1)].
+Definition wa3 : list Z := w_api [w_api_rec (w_lsct 3); w_api_rec []].
+Example api_open_outcomes_witnesses :
+  (exists d f, read_psd raw_codec wa1 = Ok d /\ api_open d = ApiOpened f /\ length f = 1%nat /\ resave_guard d = true) /\
+  (exists d, read_psd raw_codec wa2 = Ok d /\ api_open d = ApiRaised 4) /\
+  (exists d, read_psd raw_codec wa3 = Ok d /\ api_open d = ApiRaised 99).
+Proof.
+  split; [|split].
+  - do 2 eexists. split; [vm_compute; reflexivity|]. split; [vm_compute; reflexivity|]. split; reflexivity.
+  - eexists. split; vm_compute; reflexivity.
+  - eexists. split; vm_compute; reflexivity.
+Qed.
